@@ -889,6 +889,29 @@ example : (bCyg2.e.grid.get 3 1).runes = [0x79] ∧ (bCyg2.e.grid.get 3 1).pen =
       [.goto 4 2, .goto 2 1, .setPen { attrs := 4 }, .put [0x79] 1, .goto 2 1, .insertChar,
        .goto 1 1, .setPen {}, .put [0xe4, 0xb8, 0x96] 2, .goto 0 0, .goto 4 2] := by decide +kernel
 
+/-- C09 on the same history (both Shows included): every hypothesis of `db_output_wellformed_corner` holds -/
+def opsCyg3 : List ScrOp := opsCyg2 ++ [.show]
+
+theorem opsCyg3_ok : ∀ op ∈ opsCyg3, op.Valid dcCyg ∧ OpB dcCyg op := by
+  intro op hop
+  rcases List.mem_append.1 hop with h | h
+  · exact opsCyg2_ok op h
+  · simp only [List.mem_singleton] at h; subst h; exact ⟨trivial, trivial⟩
+
+example : (after dcCyg rcCyg 4 2 e0Demo opsCyg3).e.malformed = [] ∧ (after dcCyg rcCyg 4 2 e0Demo opsCyg3).e.st = .ground :=
+  db_output_wellformed_corner Gen.e05 e05_mem e05_name true false true false (fun _ => 2^32) (fun _ => 2^32)
+    (fun h => absurd h (by decide)) fitCyg 4 2
+    (by unfold SizeOk TParm.maxInt64; omega) e0Demo ⟨rfl, rfl, rfl, rfl, rfl, rfl, rfl, rfl⟩ (quiet_init _ _ (by decide +kernel)) rfl rfl
+    opsCyg3 opsCyg3_ok opsCyg2_safe
+
+/-- `cup` for all positions on a corner-trick entry: the hypothesis of `cup_accepted_all_corner` holds for cygwin -/
+example : Tcell.Props.C09.accepts false (Render.render rcCyg (.goto 100000 70000)) = true :=
+  cup_accepted_all_corner (rc := rcCyg) (db_cornerLike' Gen.e05 e05_mem e05_name) false 100000 70000
+    (by unfold TParm.maxInt64; omega) (by unfold TParm.maxInt64; omega)
+
+/-- the state sendFgBg finds: right after SGR reset the pen is `PenReset` -/
+example (t : Term) : PenReset (reset t) := ⟨rfl, rfl⟩
+
 /-- Sync on the same history: every hypothesis of `db_sync_faithful_bytes_corner` holds -/
 example : DisplaysBytes dcCyg rcCyg ((after dcCyg rcCyg 4 2 e0Demo opsCyg2).step dcCyg rcCyg .sync) :=
   db_sync_faithful_bytes_corner Gen.e05 e05_mem e05_name true false true false _ _ (fun h => absurd h (by decide)) fitCyg 4 2
